@@ -53,7 +53,9 @@ fn compare(per: &[Per], opname: &str, case: &Value, rec: &mut Rec) {
                 let at = x.bytes.iter().zip(y.bytes.iter()).position(|(p, q)| p != q);
                 rec.fail(json!({"op": x.op, "backend": format!("{a}~{b}"), "kind": "backend_mismatch", "case": case,
                     "inner": {"pair": [a, b]}, "differs": x.name, "step_index": i, "first_differing_byte": at, "routine": opname,
-                    "cross_family": a.split('-').next() != b.split('-').next()}));
+                    "cross_family": a.split('-').next() != b.split('-').next(),
+                    "radix_equal": case["shape"]["b_in"] == case["shape"]["b_key"] && case["shape"]["b_key"] == case["shape"]["b_out"],
+                    "dsize": case["shape"]["dsize"]}));
                 break;
             }
         }
